@@ -175,9 +175,21 @@ func c08Run(uidKind, mount, tier string, dl time.Time) engine.UnitResult {
 												rq.Path += "?" + q
 											}
 											o := s.Do(w, rq)
-											s.FaultLabel = ""
 											res.Evaluations++
 											class, bad := c08Check(c, o, ran, seenUser)
+											if bad == "" && q == "" {
+												// the same request as a CORS preflight (OPTIONS + Access-Control-Request-Method): the
+												// middleware's verdict does not depend on the method
+												ran, seenUser = 0, ""
+												w2 := w.Clone()
+												rq.Method, rq.Header = "OPTIONS", map[string]string{"Access-Control-Request-Method": "POST", "Origin": "https://app.example"}
+												o2 := s.Do(w2, rq)
+												res.Evaluations++
+												if _, bad2 := c08Check(c, o2, ran, seenUser); bad2 != "" {
+													bad = "method-dependent-verdict: as an OPTIONS preflight: " + bad2
+												}
+											}
+											s.FaultLabel = ""
 											res.Distinct[class] = true
 											res.Cover[class]++
 											if bad != "" {
